@@ -351,7 +351,8 @@ where
         let gcd = integer::gcd(sample_rate_input, sample_rate_output);
         let min_chunk_out = sample_rate_output / gcd;
         let wanted_subsize = chunk_size_out / sub_chunks;
-        let fft_chunks = (wanted_subsize + min_chunk_out - 1) / min_chunk_out;
+        // At least one, a chunk size below the number of sub chunks must not give an empty FFT.
+        let fft_chunks = ((wanted_subsize + min_chunk_out - 1) / min_chunk_out).max(1);
         let fft_size_out = fft_chunks * sample_rate_output / gcd;
         let fft_size_in = fft_chunks * sample_rate_input / gcd;
 
@@ -538,7 +539,8 @@ where
         let gcd = integer::gcd(sample_rate_input, sample_rate_output);
         let min_chunk_in = sample_rate_input / gcd;
         let wanted_subsize = chunk_size_in / sub_chunks;
-        let fft_chunks = (wanted_subsize + min_chunk_in - 1) / min_chunk_in;
+        // At least one, a chunk size below the number of sub chunks must not give an empty FFT.
+        let fft_chunks = ((wanted_subsize + min_chunk_in - 1) / min_chunk_in).max(1);
         let fft_size_out = fft_chunks * sample_rate_output / gcd;
         let fft_size_in = fft_chunks * sample_rate_input / gcd;
 
